@@ -244,7 +244,7 @@ def run(ctx):
     if len(members) < 3:
         raise AnalysisError("R10.9: DefTagNames.TEMPORAL_KEYS is no longer a display of at least three key names")
     v109 = view(ctx, vdt)
-    skips = [c for c in v109.conds(lambda t: "DefTagNames." in norm(t)) if "continue" in v109.leaves(c, True) or "continue" in v109.leaves(c, False)]
+    skips = [c for c in v109.conds(lambda t: "DefTagNames." in norm(t)) if {"continue", "break"} & (v109.leaves(c, True) | v109.leaves(c, False))]
     ctx.floor("R10.9", "temporal-marker skip tests in validate_duration_tags", len(skips), 1)
     for c in skips:
         used = {x.attr for x in ast.walk(c.ast) if isinstance(x, ast.Attribute) and norm(x.value).endswith("DefTagNames")}
